@@ -233,7 +233,7 @@ pub fn write_replay(cfg: &RunCfg, def: &PropDef, v: &Violation, n: usize) -> Pat
         "message": v.message,
         "case": v.desc,
     });
-    let _ = std::fs::write(&path, serde_json::to_string_pretty(&j).unwrap());
+    let _ = std::fs::write(&path, serde_json::to_string(&j).unwrap() + "\n");
     path
 }
 
@@ -561,7 +561,9 @@ pub fn run_property(def: &PropDef, cfg: &RunCfg) -> Outcome {
         "level": "exploration",
         "coverage": {
             "evaluations": total.evaluations,
-            "distinct_nontrivial": total.nontrivial.len(),
+            "distinct_nontrivial": total.distinct_nontrivial(),
+            "distinct_nontrivial_hashed": total.nontrivial.len(),
+            "distinct_nontrivial_by_enumeration_index": total.nontrivial_counted,
             "rule": def.rule,
             "samples": total.samples,
             "exhaustive": all_exhaustive,
@@ -584,7 +586,7 @@ pub fn run_property(def: &PropDef, cfg: &RunCfg) -> Outcome {
         cfg.tier.name(),
         cfg.seed,
         total.evaluations,
-        total.nontrivial.len(),
+        total.distinct_nontrivial(),
         total.excluded_known,
         violations.len(),
         wall
